@@ -8,6 +8,7 @@ pub mod c06;
 pub mod c07;
 pub mod c08;
 pub mod c11;
+pub mod c12;
 pub mod c14;
 pub mod c17;
 pub mod c36;
@@ -22,6 +23,7 @@ pub fn run(ctx: &Ctx, id: &str) -> bool {
         "C07" => c07::run(ctx),
         "C08" => c08::run(ctx),
         "C11" => c11::run(ctx),
+        "C12" => c12::run(ctx),
         "C14" => c14::run(ctx),
         "C17" => c17::run(ctx),
         "C36" => c36::run(ctx),
